@@ -210,6 +210,13 @@ func (m *Machine) execFrom(fr *Frame, b *ssa.BasicBlock, prev *ssa.BasicBlock) V
 				}
 			}
 			if n > m.cfg.LoopBound {
+				if m.cfg.Opts["unwind"] == "violation" && m.meta(fr.fn).inRepo && !strings.Contains(fr.fn.Name(), "zz") {
+					// unwind=violation: the unwinding bound is the property (a loop of the code under
+					// test that takes more than LoopBound iterations is a hang); confirmed natively
+					// when the replay is still running at its deadline
+					m.recordViolation(m.tt.T, fmt.Sprintf("loop exceeds %d iterations (does not terminate within the unwinding bound)", m.cfg.LoopBound), "hang", m.stackNames())
+					panic(abortPath{"end", "hang"})
+				}
 				panic(abortPath{"unwind", fmt.Sprintf("loop bound %d exceeded in %s", m.cfg.LoopBound, fr.fn)})
 			}
 		}
